@@ -7,6 +7,7 @@ import (
 	"os"
 	"path/filepath"
 	"strings"
+	"sync"
 	"testing/synctest"
 	"time"
 
@@ -28,10 +29,10 @@ type StoreScenario struct {
 
 // SnapSpec describes one snapshot deterministically.
 type SnapSpec struct {
-	Tag  int `json:"tag"`  // unique; part of every job id
-	Jobs int `json:"jobs"` // number of jobs
-	Pad  int `json:"pad"`  // bytes of padding in a variable of each job
-	Kind int `json:"kind"` // which variable types
+	Tag  int `json:"tag"`                       // unique; part of every job id
+	Jobs int `json:"jobs"`                      // number of jobs
+	Pad  int `json:"pad"`                       // bytes of padding in a variable of each job
+	Kind int `json:"kind"`                      // which variable types
 	Same int `json:"same_content_as,omitempty"` // tag of an earlier snapshot of this saver whose content this one repeats exactly (the state did not change between two saves)
 }
 
@@ -119,12 +120,12 @@ func generateStore(seed uint64) *Scenario {
 }
 
 type storeRun struct {
-	sc   *Scenario
-	ss   *StoreScenario
-	tape *Tape
-	core *Core
-	dir  string
-	js   *store.JsonDataStore
+	sc     *Scenario
+	ss     *StoreScenario
+	tape   *Tape
+	core   *Core
+	dir    string
+	js     *store.JsonDataStore
 	reader *store.JsonDataStore // second store object on the same directory, opened before the first save
 
 	step      int
@@ -135,7 +136,9 @@ type storeRun struct {
 	handed    map[int]string // tag -> canonical content of every snapshot passed to Save so far
 	lastRen   int            // tag of the snapshot most recently renamed into place (0: none)
 	inflight  map[uint64]*inflightSave
-	active    map[int]*bool // tag of a save that has been started and has not returned -> did it run alone so far?
+	heldMu    sync.Mutex
+	held      map[uintptr]uint64 // lock of the store -> goroutine that holds it
+	active    map[int]*bool      // tag of a save that has been started and has not returned -> did it run alone so far?
 	failNext  bool
 	saverDone chan saveDone
 	pendDone  []saveDone
@@ -149,10 +152,10 @@ type inflightSave struct {
 }
 
 type saveDone struct {
-	saver int
-	tag   int
-	err   string
-	load  string // loaders: canonical result
+	saver  int
+	tag    int
+	err    string
+	load   string // loaders: canonical result
 	isLoad bool
 }
 
@@ -176,8 +179,52 @@ func (r *storeRun) hook(point string, ctx []interface{}) {
 		}
 	}
 	// temp file names are random: the canonical name uses the saver, filled in by the driver through the goroutine id
-	r.core.park(point, point, nil, lkNone)
+	_, attr, lock := lockMarker(ctx) // a lock of the store itself (a version that serialises its saves)
+	r.core.parkL(point, point, nil, attr, lock)
 	_ = name
+}
+
+// skipHook keeps track of who holds a lock of the store (notifications inserted by cmd/instrument).
+//
+//go:norace
+func (r *storeRun) skipHook(point string, ctx []interface{}) bool {
+	if len(ctx) < 2 {
+		return false
+	}
+	g := goid()
+	if g == r.core.driver {
+		return false
+	}
+	lock := ptrOf(ctx[1])
+	raceOff()
+	r.heldMu.Lock()
+	switch point {
+	case "auto.lockedW", "auto.lockedR":
+		r.held[lock] = g
+	case "auto.unlocked":
+		if r.held[lock] == g {
+			delete(r.held, lock)
+		}
+	}
+	r.heldMu.Unlock()
+	raceOn()
+	return false
+}
+
+// blocked: would the goroutine of record p block on a lock that another goroutine holds?
+//
+//go:norace
+func (r *storeRun) blocked(p *parked) bool {
+	_, _, _, gid, attr, _ := p.rd()
+	if attr != lkW && attr != lkR {
+		return false
+	}
+	raceOff()
+	r.heldMu.Lock()
+	h, held := r.held[p.lockID()]
+	r.heldMu.Unlock()
+	raceOn()
+	return held && h != gid
 }
 
 func (r *storeRun) faultHook(point string, ctx []interface{}) error {
@@ -308,10 +355,12 @@ func (r *storeRun) execute() error {
 	}
 	verifhook.Handler = r.hook
 	verifhook.FaultHandler = r.faultHook
-	defer func() { verifhook.Handler, verifhook.FaultHandler = nil, nil }()
+	verifhook.SkipHandler = r.skipHook
+	defer func() { verifhook.Handler, verifhook.FaultHandler, verifhook.SkipHandler = nil, nil, nil }()
 	r.handed = map[int]string{}
 	r.inflight = map[uint64]*inflightSave{}
 	r.active = map[int]*bool{}
+	r.held = map[uintptr]uint64{}
 	r.saverDone = make(chan saveDone, 256)
 
 	type actor struct {
@@ -388,6 +437,9 @@ func (r *storeRun) execute() error {
 		}
 		var cs []ch
 		for _, p := range r.core.parkedQ {
+			if r.blocked(p) {
+				continue // it would block on a lock of the store that a parked saver holds
+			}
 			cs = append(cs, ch{kind: "release", rec: p, name: r.core.final(p), w: r.sc.Cfg.WParked})
 		}
 		for ai, a := range actors {
@@ -480,7 +532,7 @@ func (r *storeRun) execute() error {
 				// the new goroutine is parked at store.save.created (temp file exists)
 				for _, p := range r.core.parkedQ {
 					pt, _, _, gid, _, _ := p.rd()
-					if _, known := r.inflight[gid]; !known && pt == "store.save.created" {
+					if _, known := r.inflight[gid]; !known && (pt == "store.save.created" || strings.HasPrefix(pt, "auto.")) {
 						r.inflight[gid] = &inflightSave{tag: sp.Tag, stage: pt}
 					}
 				}
